@@ -329,15 +329,23 @@ func TestVerifC11(t *testing.T) {
 					}
 				}
 				lines := strings.Split(raw, "\n")
-				switch r.Intn(4) {
-				case 0:
-					lines, _, _, _, _ = vTHyphen(r, lines)
-				case 1:
-					lines, _ = vTWhitespace(r, lines)
-				case 2:
-					lines, _ = vTMarkers(r, lines, []string{"A.", "IV.", "B:", "1.", "a.", "II."})
-				case 3:
-					lines, _, _ = vTNotices(r, lines, vNoticeLine)
+				for pass, np := 0, 1+r.Intn(2); pass < np; pass++ {
+					switch r.Intn(4) {
+					case 0:
+						lines, _, _, _, _ = vTHyphen(r, lines)
+					case 1:
+						lines, _ = vTWhitespace(r, lines)
+					case 2:
+						lines, _ = vTMarkers(r, lines, []string{"A.", "IV.", "B:", "1.", "a.", "II."})
+					case 3:
+						lines, _, _ = vTNotices(r, lines, vNoticeLine)
+					}
+				}
+				if r.Intn(4) == 0 {
+					// CR LF line endings on top (also after hyphen-split lines)
+					for i := range lines {
+						lines[i] = strings.TrimRight(lines[i], "\r") + "\r"
+					}
 				}
 				text = lead + strings.Join(lines, "\n")
 			case "kf-witness":
